@@ -378,11 +378,13 @@ def check_case(case: Dict[str, Any], styles: List[Dict[str, Any]], sfrom: int,
 
 # ------------------------------------------------------------------ spec -> code
 def write_cfg(path: Path, c: Tuple, sfrom: int, sto: int, invariants: List[str]) -> None:
-    ml, mc, md, mw, ma, rich, inv = c
+    ml, mc, md, mw, ma, alpha, inv = c[:7]
+    mlw = c[7] if len(c) > 7 else mw                             # optional 8th: items per list literal
+    alpha = {True: "rich", False: "small"}.get(alpha, alpha)      # leaf alphabet of MC_C02
     path.write_text(
         "SPECIFICATION Spec\nCONSTANTS\n"
-        f"  MaxLeaves = {ml}\n  MaxCont = {mc}\n  MaxDepth = {md}\n  MaxWidth = {mw}\n  MaxArgs = {ma}\n"
-        f"  Rich = {'TRUE' if rich else 'FALSE'}\n  AllowInvalid = {'TRUE' if inv else 'FALSE'}\n"
+        f"  MaxLeaves = {ml}\n  MaxCont = {mc}\n  MaxDepth = {md}\n  MaxWidth = {mw}\n  MaxListWidth = {mlw}\n  MaxArgs = {ma}\n"
+        f"  Alpha = \"{alpha}\"\n  AllowInvalid = {'TRUE' if inv else 'FALSE'}\n"
         f"  StyleFrom = {sfrom}\n  StyleTo = {sto}\n" + "".join(f"INVARIANT {i}\n" for i in invariants))
 
 
